@@ -97,9 +97,16 @@ func (q *ShardQueue) Add(gts ...WriterGetter) {
 	q.lock(shard)
 	trigger := len(q.getters[shard]) == 0
 	q.getters[shard] = append(q.getters[shard], gts...)
-	q.unlock(shard)
+	// the shard must be counted in q.trigger before the lock is released: otherwise another Add
+	// can append to this (non-empty, not yet triggered) shard and return, and a Close that follows
+	// sees trigger == 0 and returns while those getters are still waiting.
+	first := false
 	if trigger {
-		q.triggering(shard)
+		first = q.triggering(shard)
+	}
+	q.unlock(shard)
+	if first {
+		q.foreach()
 	}
 }
 
@@ -118,17 +125,14 @@ func (q *ShardQueue) Close() error {
 	return nil
 }
 
-// triggering shard.
-func (q *ShardQueue) triggering(shard int32) {
+// triggering shard. It reports whether the caller has to start the worker.
+func (q *ShardQueue) triggering(shard int32) (first bool) {
 	q.listLock.Lock()
 	q.w = (q.w + 1) % q.size
 	q.list[q.w] = shard
 	q.listLock.Unlock()
 
-	if atomic.AddInt32(&q.trigger, 1) > 1 {
-		return
-	}
-	q.foreach()
+	return atomic.AddInt32(&q.trigger, 1) == 1
 }
 
 // foreach swap r & w. It's not concurrency safe.
@@ -165,8 +169,9 @@ func (q *ShardQueue) foreach() {
 			q.foreach()
 			return
 		}
-		// if state is closing, change it to closed
-		atomic.CompareAndSwapInt32(&q.state, closing, closed)
+		// Close itself switches closing to closed once it sees trigger == 0. Doing it here would be
+		// wrong: a shard may have been triggered since the check above, and Close would return
+		// before its getters have been handled.
 	})
 }
 
